@@ -1,6 +1,7 @@
 package main
 
 import (
+	"bytes"
 	"context"
 	"fmt"
 	"io/ioutil"
@@ -13,6 +14,7 @@ import (
 	"strings"
 	"sync"
 	"sync/atomic"
+	"syscall"
 	"time"
 
 	"github.com/MinterTeam/minter-go-node/coreV2/types"
@@ -53,6 +55,7 @@ func StartReaders(h *Hist, n int, seed int64) *Readers {
 				func() {
 					defer func() {
 						if e := recover(); e != nil {
+							fmt.Fprintln(os.Stderr, "READER-PANIC", shortPanic(e))
 							r.mu.Lock()
 							if len(r.Panics) < 20 {
 								r.Panics = append(r.Panics, shortPanic(e))
@@ -122,8 +125,12 @@ func StartReaders(h *Hist, n int, seed int64) *Readers {
 						cs.App().GetTotalSlashed()
 						cs.Commission().GetCommissions()
 					case 13:
+						// export is served from a separate state opened at a committed height (as `minter export` and
+						// State.Export do), never from the live state
 						if rng.Intn(6) == 0 {
-							cs.Export()
+							if hs, err := app.GetStateForHeight(app.Height()); err == nil && hs != nil && app.Height() > 0 {
+								hs.Export()
+							}
 						}
 					case 14:
 						cs.Candidates().IsDelegatorStakeSufficient(a, pk, c0, big.NewInt(1e18))
@@ -146,13 +153,52 @@ func (r *Readers) Stop() {
 
 var raceHdr = regexp.MustCompile(`WARNING: DATA RACE`)
 
+// childTimeout bounds one child process (one history). A child that does not finish is a hang: it is sent SIGQUIT first
+// (the Go runtime then prints every goroutine's stack and exits), killed if that does not help, and reported.
+var childTimeout = func() time.Duration {
+	if d, err := time.ParseDuration(os.Getenv("VERIF_CHILD_TIMEOUT")); err == nil && d > 0 {
+		return d // for testing the hang path
+	}
+	return 10 * time.Minute
+}()
+
+var errChildHung = fmt.Errorf("child process hung")
+
+// runChild runs cmd with the timeout; returns the combined output.
+func runChild(cmd *exec.Cmd, timeout time.Duration) (string, error) {
+	var buf bytes.Buffer
+	cmd.Stdout, cmd.Stderr = &buf, &buf
+	if err := cmd.Start(); err != nil {
+		return "", err
+	}
+	done := make(chan error, 1)
+	go func() { done <- cmd.Wait() }()
+	select {
+	case err := <-done:
+		return buf.String(), err
+	case <-time.After(timeout):
+		cmd.Process.Signal(syscall.SIGQUIT) // goroutine dump
+		select {
+		case <-done:
+		case <-time.After(20 * time.Second):
+			cmd.Process.Kill()
+			<-done
+		}
+		return buf.String(), errChildHung
+	}
+}
+
 // Concurrent (C25): each history runs in two child processes — query-free and with reader goroutines — and the traces
-// (every response, tag, state delta and app hash) must be identical; the loaded child must not die.
+// (every response, tag, state delta and app hash) must be identical; the loaded child must neither die nor hang.
+// A panic inside a reader goroutine is recovered (the API server recovers handler panics too) and only counted in
+// Notes["reader_panics"]; violations are: process death, a hang (no end within childTimeout; goroutine dump kept), a trace difference.
 // When a race-detector build of the harness is available the loaded child is that build and its reports are collected.
 func Concurrent(profile string, baseSeed int64, n int, tier, keep, self, raceBin string, readers int) ModeResult {
 	res := ModeResult{Notes: map[string]interface{}{}}
 	races := map[string]int{}
 	totalCalls := 0
+	readerPanics := 0
+	var panicSamples []string
 	for i := 0; i < n; i++ {
 		seed := baseSeed*1000 + int64(i)
 		run := func(bin string, rd int, extraEnv []string) ([]string, string, error, string) {
@@ -160,11 +206,18 @@ func Concurrent(profile string, baseSeed int64, n int, tier, keep, self, raceBin
 			tmp.Close()
 			defer os.Remove(tmp.Name())
 			cmd := exec.Command(bin, "one", "-profile", profile, "-seed", fmt.Sprint(seed), "-tier", tier, "-trace", tmp.Name(), "-readers", fmt.Sprint(rd))
-			cmd.Env = append(os.Environ(), extraEnv...)
-			out, err := cmd.CombinedOutput()
-			return readLines(tmp.Name()), string(out), err, tmp.Name()
+			cmd.Env = append(append(os.Environ(), "GOTRACEBACK=all"), extraEnv...) // SIGQUIT on a hang dumps every goroutine
+			out, err := runChild(cmd, childTimeout)
+			return readLines(tmp.Name()), out, err, tmp.Name()
 		}
 		plain, outA, errA, _ := run(self, 0, nil)
+		if errA == errChildHung {
+			dst := fmt.Sprintf("%s/concurrent-%s-%d.txt", keep, profile, seed)
+			os.MkdirAll(keep, 0o755)
+			ioutil.WriteFile(dst, []byte(fmt.Sprintf("profile=%s seed=%d readers=0: the query-free instance did not finish within %s; goroutine dump (SIGQUIT):\n%s\n", profile, seed, childTimeout, tailBytes(outA, 200000))), 0o644)
+			res.viol("C25", fmt.Sprintf("query-free instance hung (no end within %s): %s", childTimeout, clip(hangSummary(outA), 300)), dst)
+			continue
+		}
 		if errA != nil {
 			res.viol("C25", "query-free instance failed: "+clip(outA, 300), "")
 			continue
@@ -178,6 +231,12 @@ func Concurrent(profile string, baseSeed int64, n int, tier, keep, self, raceBin
 		loaded, outB, errB, _ := run(bin, readers, env)
 		res.Evaluations += len(plain)
 		dst := fmt.Sprintf("%s/concurrent-%s-%d.txt", keep, profile, seed)
+		if errB == errChildHung {
+			os.MkdirAll(keep, 0o755)
+			ioutil.WriteFile(dst, []byte(fmt.Sprintf("profile=%s seed=%d readers=%d: the node process hung under concurrent queries (no end within %s); goroutine dump (SIGQUIT):\n%s\n", profile, seed, readers, childTimeout, tailBytes(outB, 400000))), 0o644)
+			res.viol("C25", fmt.Sprintf("node hung under concurrent read-only queries (no end within %s; goroutine dump in the replay file): %s", childTimeout, clip(hangSummary(outB), 300)), dst)
+			continue
+		}
 		if errB != nil {
 			os.MkdirAll(keep, 0o755)
 			ioutil.WriteFile(dst, []byte(fmt.Sprintf("profile=%s seed=%d readers=%d: the node process died under concurrent queries\n%s\n", profile, seed, readers, clip(outB, 6000))), 0o644)
@@ -194,10 +253,10 @@ func Concurrent(profile string, baseSeed int64, n int, tier, keep, self, raceBin
 				var c, p int
 				fmt.Sscanf(l, "READERS calls=%d panics=%d", &c, &p)
 				totalCalls += c
-				if p > 0 {
-					os.MkdirAll(keep, 0o755)
-					ioutil.WriteFile(dst, []byte(fmt.Sprintf("profile=%s seed=%d readers=%d: a query panicked\n%s\n", profile, seed, readers, clip(outB, 6000))), 0o644)
-					res.viol("C25", "a read-only query panicked while blocks executed: "+clip(l, 300), dst)
+				// a panic inside a reader is recovered, as the API server does for its handlers: counted, not a violation
+				readerPanics += p
+				if p > 0 && len(panicSamples) < 5 {
+					panicSamples = append(panicSamples, fmt.Sprintf("seed %d: %s", seed, clip(l, 300)))
 				}
 			}
 		}
@@ -234,6 +293,10 @@ func Concurrent(profile string, baseSeed int64, n int, tier, keep, self, raceBin
 		res.Distinct = 2
 	}
 	res.Notes["reader_calls"] = totalCalls
+	res.Notes["reader_panics"] = readerPanics
+	if len(panicSamples) > 0 {
+		res.Notes["reader_panic_samples"] = panicSamples
+	}
 	res.Notes["histories"] = n
 	keys := make([]string, 0, len(races))
 	for k := range races {
@@ -254,4 +317,38 @@ func lastLines(s string, n int) string {
 		ls = ls[len(ls)-n:]
 	}
 	return strings.Join(ls, " / ")
+}
+
+func tailBytes(s string, n int) string {
+	if len(s) > n {
+		return "…" + s[len(s)-n:]
+	}
+	return s
+}
+
+// hangSummary: the first node frames of the goroutine dump that mention a lock wait (where the node is stuck).
+func hangSummary(dump string) string {
+	var out []string
+	ls := strings.Split(dump, "\n")
+	for i, l := range ls {
+		if strings.HasPrefix(l, "goroutine ") && (strings.Contains(l, "semacquire") || strings.Contains(l, "sync.") || strings.Contains(l, "chan ")) {
+			for j := i + 1; j < len(ls) && j < i+40 && ls[j] != ""; j++ {
+				if strings.HasPrefix(ls[j], "github.com/MinterTeam/minter-go-node/") {
+					f := strings.TrimPrefix(ls[j], "github.com/MinterTeam/minter-go-node/")
+					if k := strings.Index(f, "("); k > 0 {
+						f = f[:k]
+					}
+					out = append(out, f)
+					break
+				}
+			}
+		}
+		if len(out) >= 4 {
+			break
+		}
+	}
+	if len(out) == 0 {
+		return lastLines(dump, 4)
+	}
+	return "blocked in " + strings.Join(out, " | ")
 }
